@@ -957,6 +957,9 @@ func (fc *FnCtx) applyOnCall(st *State, oc *OnCall, c *ast.CallExpr, args []Val,
 		fc.havocHeap(st, nil)
 		fc.havocEscaped(st)
 	}
+	if oc.HeapOnly {
+		fc.havocHeap(st, nil)
+	}
 	for _, p := range oc.Modifies {
 		fc.havocPath(st, p, c)
 	}
